@@ -4,8 +4,9 @@
 //
 // usage: genconsts <repo> <spec.txt>  > Consts.v
 // spec lines:   <coq_name> const <pkgdir> <GoName>          integer constant (typed or untyped)
-//               <coq_name> bytes <pkgdir> <GoVarName>       var X = []byte{...} of literals
-//               <coq_name> duration <pkgdir> <GoName>       time.Duration constant, in ns
+//
+//	<coq_name> bytes <pkgdir> <GoVarName>       var X = []byte{...} of literals
+//	<coq_name> duration <pkgdir> <GoName>       time.Duration constant, in ns
 package main
 
 import (
